@@ -114,4 +114,11 @@ MUTANTS = [
     ("control_chain_scaled", ST, "            self.set_der(u, helper_u)", "            self.set_der(u, 2*helper_u if order==2 else helper_u)", ["C16"]),
     ("signal_der_no_order_check", ST, "            if self.order==0:\n                raise Exception(\"Cannot differentiate \" + self.symbol.name() + \" any further.\")\n            der_symbol = MX.sym(\"der_\"+self.symbol.name(), self.symbol.sparsity())\n            self.derivative = AbstractSignal(self.order-1)", "            der_symbol = MX.sym(\"der_\"+self.symbol.name(), self.symbol.sparsity())\n            self.derivative = AbstractSignal(self.order-1)", ["C16"]),
     ("der_no_time_branch_wrong_gradient", ST, "                return jtimes(expr, self.x, ode(x=self.x, u=self.u, z=self.z, p=vertcat(self.p, self.v), t=self.t)[\"ode\"])", "                return jtimes(expr, self.x, ode(x=self.x, u=self.u, z=self.z, p=vertcat(self.p, self.v), t=self.t+1)[\"ode\"])", ["C16"]),
+    # --- C17
+    ("bspline_derivative_scale", "rockit/splines/micro_spline.py", "  scale = d/delta_xi", "  scale = (d-1)/delta_xi if d>1 else d/delta_xi", ["C17"]),
+    ("greville_average_shift", "rockit/splines/micro_spline.py", "    return xi @ S", "    return xi @ S + (0.01 if d==3 else 0)", ["C17"]),
+    ("basis_subgrid_interval", "rockit/splines/micro_spline.py", "    x = knots[ind+d]*(1-tau)+tau*knots[ind+d+1]", "    x = knots[ind+d]*(1-tau)+tau*knots[min(ind+d+2,knots.numel()-1)] if d==2 else knots[ind+d]*(1-tau)+tau*knots[ind+d+1]", ["C17"]),
+    ("spline_chain_derivative_unscaled", "rockit/spline_method.py", "                    e = bspline_derivative(e,self.xi,d-i)/self.T", "                    e = bspline_derivative(e,self.xi,d-i)", ["C17"]),
+    ("spline_constraints_skip_refined_points", "rockit/spline_method.py", "            _,results = self.grid_control(stage, canon, 'control', refine=refine)", "            _,results = self.grid_control(stage, canon, 'control', refine=min(refine,2))", ["C17"]),
+    ("bspline_param_coeff_reversed", SM, "            opti.set_value(self.signals[p].coeff, stage._param_value(p))", "            opti.set_value(self.signals[p].coeff, DM(stage._param_value(p))[:,::-1])", ["C17"]),
 ]
